@@ -607,11 +607,11 @@ impl Property for UnifyProp {
     }
 
     fn rule(&self) -> String {
-        let common = "Histories of 1-5 equations over a bounded universe (variables $A..$F with ids 1-6, atoms a/b/c, ints 0/1/-1, floats 0.5/1.0/-0.0/0.0, $_, f/1 f/2 g/2 h/0, lists of 0-3 elements with no/variable/$_ tail, depth <= 3); each step runs on the substitution the engine produced for the earlier steps; second terms are often perturbed copies of the first";
+        let common = "Histories of 1-5 equations over a bounded universe (variables $A..$F with ids 1-6, atoms a/b/c, ints 0/1/-1, floats 0.5/1.0/-0.0/0.0, $_, f/1 f/2 g/2 h/0, lists of 0-3 elements with no/variable/$_ tail, depth <= 3); each step runs on the substitution the engine produced for the earlier steps; second terms are often perturbed copies of the first; every history is also run over lists built by make_linked_list and over terms read back from their source text by parse_term";
         match self.aspect {
-            UAspect::Mgu => format!("{}. Oracle: reference Robinson unifier step by step: same success; joint resolved tuple of all variables is a variant of the reference's; earlier bindings kept; both sides identical when resolved; engine accessors agree with the harness walker. Non-trivial = both terms compound or a non-empty prior substitution; distinct by history text.", common),
-            UAspect::Symmetry => format!("{}. Oracle (metamorphic): each history is also run with sides swapped, after recreate_variables (shared VarMap), both, and wrapped as p(t) = p(u); success per step and final resolved tuple must agree. Non-trivial = a pair of compound terms; distinct by history text.", common),
-            UAspect::Acyclic => format!("{} restricted to 4 variables with 60% variable/variable equations, 1-8 steps. Oracle (invariant): after every successful step no binding chain returns to its start (own walker + bind hook), already-equal terms add no binding, both orders. Non-trivial = a step unifies two distinct variables that are already transitively aliased; distinct by history text.", common),
+            UAspect::Mgu => format!("{}. Oracle: reference Robinson unifier step by step: same success; joint resolved tuple of all variables is a variant of the reference's; earlier bindings kept; both sides identical when resolved; engine accessors agree with the harness walker; one history in five also as `=` goals of a rule body between variables already bound to the two terms (the built-in unify predicate). Non-trivial = both terms compound or a non-empty prior substitution; distinct by history text.", common),
+            UAspect::Symmetry => format!("{}. Oracle (metamorphic): each history is also run with sides swapped, after recreate_variables (shared VarMap), both, and wrapped as p(t) = p(u), and as fact/query pairs through the knowledge base (p(t) asked with p(u), arity 1, 2 and arguments spread over p/n); success per step and final resolved tuple must agree. Non-trivial = a pair of compound terms; distinct by history text.", common),
+            UAspect::Acyclic => format!("{} restricted to 4 variables with 60% variable/variable equations, 1-8 steps. Oracle (invariant): after every successful step no binding chain returns to its start (own walker + bind hook), already-equal terms add no binding, both orders; one case in five is a generated alias-heavy program (facts with variables nested in structures, recursion) whose substitution set is searched for a binding cycle after every answer, before it is resolved. Non-trivial = a step unifies two distinct variables that are already transitively aliased; distinct by history text.", common),
             UAspect::Anon => format!("{} keeping only histories that contain $_ (one third of steps are `$X = $_` or `$_ = t`). Oracle: reference unifier with the wildcard rule (matches anything, never binds, a variable unified with bare $_ stays unbound) + binding vector unchanged by bare-$_ steps. Non-trivial = every kept history (contains $_); distinct by history text.", common),
         }
     }
